@@ -18,7 +18,7 @@ Print Assumptions C15_task_calls_never_block.
 
 Example C15_nonvacuous :
   exists s A, reach (mk_cfg MPMC 1 (WFut 0 0)) true s /\ get (ags s) 1 = Some A
-              /\ is_task_call (r_call (a_r A)) = true /\ a_pc A = R2.
+              /\ is_task_call (r_call (a_r A)) = true /\ a_pc A = R3.
 Proof.
   exists (reach_by (mk_cfg MPMC 1 (WFut 0 0)) true (Start 1 CPoll :: Step 1 :: nil)).
   eexists. split; [apply reach_run|]. vm_compute. repeat split.
